@@ -772,7 +772,14 @@ func (t *tokenizer) readEscapedChar(isClob bool) (rune, error) {
 		if isClob {
 			return 0, t.invalidChar('U')
 		}
-		return t.readHexEscapeSeq(8)
+		r, err := t.readHexEscapeSeq(8)
+		if err != nil {
+			return 0, err
+		}
+		if r < 0 || r > unicode.MaxRune {
+			return 0, &SyntaxError{fmt.Sprintf("escape \\U%08X is not a Unicode code point", uint32(r)), t.pos - 10}
+		}
+		return r, nil
 	case 'u':
 		if isClob {
 			return 0, t.invalidChar('u')
